@@ -739,6 +739,32 @@ def probe_eval(d):
             if not ok:
                 break
         return ok, [v.tolist() for v in got], [v.tolist() for v in want]
+    if kind == 'callback-count-variants':
+        # variants outside the resumption claim: only "one callback per iteration, last one = returned x"
+        A = _pop(d['op'])
+        tr, cb = rec()
+        x = _el(A.domain, d['x0'])
+        v = d['variant']
+        if v in ('pdhg-gamma_primal', 'pdhg-gamma_dual'):
+            f, g = _pf(d['f'], A.domain), _pf(d['g'], A.range)
+            pdhg(x, f, g, A, N, d['tau'], d['sigma'], callback=cb, **{v[5:]: d['gamma']})
+            want = N
+        elif v == 'kaczmarz-random':
+            kaczmarz([A, A], x, [_el(A.range, d['rhs'])] * 2, N, omega=d['omega'], random=True, callback=cb,
+                     callback_loop=d['loop'])
+            want = N * (2 if d['loop'] == 'inner' else 1)
+        elif v == 'adupdates-random':
+            gs = [_pf(d['g'], A.range)] * 2
+            adupdates(x, gs, [A, A], d['tau'], [d['sigma']] * 2, N, random=True, callback=cb, callback_loop=d['loop'])
+            want = N * (2 if d['loop'] == 'inner' else 1)
+        elif v == 'accelerated_proximal_gradient':
+            from odl.solvers.nonsmooth.proximal_gradient_solvers import accelerated_proximal_gradient
+            sp = A.domain
+            accelerated_proximal_gradient(x, _pf(d['f'], sp), _pf(['l2sqdata', d['op'][1], d['rhs']], sp), d['tau'], N,
+                                          callback=cb)
+            want = N
+        ok = len(tr) == want and (not tr or _close(tr[-1], _flat(x)))
+        return ok, len(tr), want
     if kind == 'callback-douglas_rachford_pd':
         Ls = [_pop(o) for o in d['ops']]
         dom = Ls[0].domain if Ls else odl.rn(len(d['x0']))
@@ -1027,6 +1053,14 @@ def probes(rng, tier):
         add(d, 'resume-pdhg-default-stepsizes-norm-estimate-not-cached',
             'pdhg with tau=sigma=None (from L.norm(estimate=True)), same operator object, x_relax and y passed back: '
             'n then m iterations = n+m iterations')
+    for v in ['pdhg-gamma_primal', 'pdhg-gamma_dual', 'kaczmarz-random', 'adupdates-random',
+              'accelerated_proximal_gradient'] * reps:
+        n, m = rng.randint(1, 4), rng.randint(1, 4)
+        d = {'kind': 'callback-count-variants', 'variant': v, 'op': ['rn', _mat(rng, m, n)], 'rhs': _vec(rng, m),
+             'f': _rand_spec(rng, n, 'prox'), 'g': _rand_spec(rng, m, 'prox'), 'tau': _dy(rng), 'sigma': _dy(rng),
+             'gamma': rng.choice([0.5, 1.0]), 'omega': 0.125, 'loop': rng.choice(['inner', 'outer']),
+             'x0': _vec(rng, n), 'niter': rng.randint(0, 5)}
+        add(d, 'callback-count-%s' % v, '%s: one callback per (sub-)iteration and the last one sees the returned x' % v)
     for _ in range(10 * reps):
         n = rng.randint(1, 4)
         nops = rng.choice([0, 1, 2, 3])
